@@ -782,7 +782,33 @@ class ObjInterp(BlockEval):
         o = outs[0]
         if o.term == "raise":
             return ("raise", o.value)
+        if getattr(self, "check_views", False) and not getattr(self, "_in_view", False):
+            why = self._views(o.value)
+            if why is not None:
+                return ("incoherent", why)
         return ("ok", o.value)
+
+    def _views(self, v, depth=0):
+        """A FmtStr result (or every FmtStr of a list / tuple result) made of concrete text must agree with itself: .s, len(),
+        str() against its runs (models.view_problem).  Switched on per rule with `check_views`."""
+        if isinstance(v, (list, tuple)) and depth < 2:
+            for x in v:
+                why = self._views(x, depth + 1)
+                if why is not None:
+                    return why
+            return None
+        if not (isinstance(v, Obj) and v.cls == "FmtStr"):
+            return None
+        chunks = v.fields.get("chunks")
+        if not isinstance(chunks, list) or not all(isinstance(c, Obj) and type(c.fields.get("_s")) is str for c in chunks):
+            return None
+        from .models import view_problem
+        self._in_view = True
+        try:
+            why = view_problem(self, v)
+        finally:
+            self._in_view = False
+        return None if why is None else "the result disagrees with itself: " + why
 
     def new(self, module, clsname, *args, **kw):
         cref = self.folder.module(module)[clsname]
